@@ -36,6 +36,7 @@ type Obl struct {
 
 // Gen generates the SMT script of one function under verification.
 type Gen struct {
+	dbgCache  map[*ssa.Function]map[string]dbgName
 	w         *World
 	d         *Decls
 	specs     *Specs
